@@ -389,6 +389,8 @@ class Grammar:
                     add(k)
             elif c in [bool, int, str, float, list, tuple]:
                 pass
+            elif is_abstract(c):
+                pass  # an abstract type without productions: nothing is reachable through it
             else:
                 assert False
 
